@@ -164,8 +164,16 @@ def _m(p, n, b) -> bool:
 
 
 def find(root, src: str, mode: str = "eval", nested: bool = True):
-    """Yield (node, bindings) for every sub-node of root matching the pattern."""
-    p = compile_pat(src, mode)
+    """Yield (node, bindings) for every sub-node of root matching the pattern.
+    A pattern that is not an expression (assignment, return, ...) is matched as a statement."""
+    if mode == "eval":
+        try:
+            p = compile_pat(src, "eval")
+        except SyntaxError:
+            mode = "exec"
+            p = compile_pat(src, "exec")
+    else:
+        p = compile_pat(src, mode)
     want_stmt = mode != "eval"
     for n in _walk(root, nested):
         if want_stmt and not isinstance(n, ast.stmt):
